@@ -38,6 +38,18 @@ def run(ctx):
         if f and (f["path"].endswith("::next_message_slice") or f.get("name") == "collect_statistic"):
             R.violation("LOOP-1", FN + "|outside|" + f["path"], "%s is called outside the scan loop" % f["s"], function=FN)
     R.floor("LOOP-1", 2)
+    # LOOP-S: nothing but the reader and the collector carries a value from one message to the next
+    stale = lib_loop.stale_uses(b, lp)
+    names = {}
+    for d in b.get("debug", []):
+        if not d["p"]["p"]:
+            names.setdefault(d["p"]["l"], d["name"])
+    for l, bi, sp in stale:
+        f2, l2 = loc_of({"sp": sp}) if sp else (fl, ln)
+        R.violation("LOOP-S", "%s|stale|%s" % (FN, names.get(l, "_%d" % l)), "the scan loop reads `%s` before the current iteration assigned it: a value computed for the previous message (or before the loop) flows into the tally of this message" % names.get(l, "_%d" % l), function=FN, file=f2, line=l2)
+    if not stale:
+        R.obligation("LOOP-S", FN + "|no-carried-state", "discharged", "every local assigned in the scan loop is assigned in an iteration before it is read in that iteration")
+    R.instance("LOOP-S", "scan loop: %d upward-exposed use(s) of loop-assigned locals" % len(stale))
     # the scan sees every message only if the reader it pulls from delivers every message: the blocking reader's
     # read discipline (read_exact on the BufReader only; shared with C07) and its two-phase algebra / dispatch
     from rules import lib_call
